@@ -696,6 +696,121 @@ def check_api_binding(ctx):
                     "public name is not the analysed function; the analysis below does not cover it")
 
 
+def lossy_division(ctx, fn: ast.FunctionDef, rel: str) -> None:
+    """C19.4 (round 11): a TRUE division `n / c` of the id (or of a plain copy of it) by an integer constant, on the way to the digits.
+    The quotient is a 53-bit float; for ids of 54 bits and more int(n / c) can differ from n // c.  Reported only with a witness: an
+    id in [0, 2**64) that reaches the division (every guard in front of it that returns or raises is folded at the witness; the
+    division must not sit under a condition of its own) and for which the two quotients differ, and only when the quotient's name
+    (or the division itself) occurs in a return expression.  Anything that cannot be folded is undecided."""
+    tree = ctx.sources.tree(rel)
+    consts: Dict[str, int] = {}
+
+    def fold(e, env):
+        if isinstance(e, ast.Constant) and isinstance(e.value, (int, bool)) and not isinstance(e.value, bool):
+            return e.value
+        if isinstance(e, ast.Constant) and isinstance(e.value, bool):
+            return e.value
+        if isinstance(e, ast.Name):
+            if e.id in env:
+                return env[e.id]
+            if e.id in consts:
+                return consts[e.id]
+            raise KeyError(e.id)
+        if isinstance(e, ast.UnaryOp) and isinstance(e.op, (ast.USub, ast.Not, ast.Invert)):
+            v = fold(e.operand, env)
+            return -v if isinstance(e.op, ast.USub) else ((not v) if isinstance(e.op, ast.Not) else ~v)
+        if isinstance(e, ast.BinOp):
+            l, r = fold(e.left, env), fold(e.right, env)
+            ops = {ast.Add: lambda a, b: a + b, ast.Sub: lambda a, b: a - b, ast.Mult: lambda a, b: a * b, ast.LShift: lambda a, b: a << b if 0 <= b <= 256 else None,
+                   ast.RShift: lambda a, b: a >> b if b >= 0 else None, ast.Pow: lambda a, b: a ** b if 0 <= b <= 256 else None, ast.FloorDiv: lambda a, b: a // b if b else None,
+                   ast.Mod: lambda a, b: a % b if b else None, ast.BitAnd: lambda a, b: a & b, ast.BitOr: lambda a, b: a | b}
+            f = ops.get(type(e.op))
+            v = f(l, r) if f else None
+            if v is None:
+                raise KeyError("op")
+            return v
+        if isinstance(e, ast.Compare):
+            vals = [fold(e.left, env)] + [fold(c, env) for c in e.comparators]
+            tests = {ast.Lt: lambda a, b: a < b, ast.LtE: lambda a, b: a <= b, ast.Gt: lambda a, b: a > b, ast.GtE: lambda a, b: a >= b,
+                     ast.Eq: lambda a, b: a == b, ast.NotEq: lambda a, b: a != b}
+            out = True
+            for op, a, b in zip(e.ops, vals, vals[1:]):
+                if type(op) not in tests:
+                    raise KeyError("cmp")
+                out = out and tests[type(op)](a, b)
+            return out
+        if isinstance(e, ast.BoolOp):
+            vs = [fold(v, env) for v in e.values]
+            return all(vs) if isinstance(e.op, ast.And) else any(vs)
+        raise KeyError(type(e).__name__)
+    for n in tree.body:
+        if isinstance(n, ast.Assign) and len(n.targets) == 1 and isinstance(n.targets[0], ast.Name):
+            try:
+                v = fold(n.value, {})
+                if isinstance(v, int) and not isinstance(v, bool):
+                    consts[n.targets[0].id] = v
+            except KeyError:
+                pass
+    if not fn.args.args:
+        return
+    prm = fn.args.args[0].arg
+    copies = {prm}
+    for n in ast.walk(fn):
+        if isinstance(n, ast.Assign) and isinstance(n.value, ast.Name) and n.value.id in copies:
+            copies |= {t.id for t in n.targets if isinstance(t, ast.Name)}
+    if any(isinstance(n, (ast.Assign, ast.AugAssign)) and any(isinstance(x, ast.Name) and x.id == prm and isinstance(x.ctx, ast.Store) for x in ast.walk(n)) for n in ast.walk(fn)):
+        return                      # the parameter is re-bound: positions are not followed here
+    ret_names = {x.id for n in ast.walk(fn) if isinstance(n, ast.Return) and n.value is not None for x in ast.walk(n.value) if isinstance(x, ast.Name)}
+    for idx, st in enumerate(fn.body):
+        if isinstance(st, (ast.If, ast.For, ast.While, ast.Try, ast.With, ast.FunctionDef)):
+            continue                # only divisions in statements at the top level of the function (no condition of their own)
+        truncated = {id(c_.args[0]) for c_ in ast.walk(st) if isinstance(c_, ast.Call) and len(c_.args) == 1 and not c_.keywords
+                     and core.src(c_.func) in ("int", "math.floor", "math.trunc", "floor", "trunc")}
+        for d in [x for x in ast.walk(st) if isinstance(x, ast.BinOp) and isinstance(x.op, ast.Div)]:
+            if not (isinstance(d.left, ast.Name) and d.left.id in copies) or id(d) not in truncated:
+                continue
+            try:
+                c = fold(d.right, {})
+            except KeyError:
+                continue
+            if not isinstance(c, int) or isinstance(c, bool) or c <= 1:
+                continue
+            flows = isinstance(st, ast.Return) or (isinstance(st, ast.Assign) and any(isinstance(t, ast.Name) and t.id in ret_names for t in st.targets))
+            where = core.loc(rel, d)
+            construct = f"a5.core.hex.{fn.name}: `{core.src(d)}` divides the id as a float"
+            if not flows:
+                continue
+            cands = [(1 << 64) - 1, (1 << 63) + (1 << 31) - 1, (1 << 62) - 1, (1 << 54) - 1, (1 << 60) + c - 1, 3 * (1 << 61) - 1]
+            witness, undecided = None, None
+            for v in cands:
+                if int(v / c) == v // c:
+                    continue
+                reach = True
+                for g in fn.body[:idx]:
+                    if isinstance(g, ast.If) and g.body and isinstance(g.body[-1], (ast.Return, ast.Raise)) and not g.orelse:
+                        try:
+                            if fold(g.test, {k: v for k in copies}):
+                                reach = False
+                                break
+                        except KeyError:
+                            undecided = f"guard `{core.src(g.test)}` in front of the division is not folded"
+                            reach = False
+                            break
+                    elif isinstance(g, (ast.If, ast.For, ast.While, ast.Try, ast.With)):
+                        undecided = "a compound statement in front of the division is not followed"
+                        reach = False
+                        break
+                if reach:
+                    witness = v
+                    break
+            if witness is not None:
+                ctx.bad("C19.4", construct, where,
+                        f"for n = {hex(witness)} (in range, reaches this statement) int(n / {c}) = {int(witness / c)} but n // {c} = {witness // c}: the quotient passes "
+                        f"through a 53-bit float, and it is written into the returned text -- the digits are those of another id")
+            elif undecided:
+                ctx.unk("C19.4", construct, where, undecided)
+
+
 def run(ctx):
     ctx.explanation = (
         "String-shape abstract interpretation (E7) of a5/core/hex.py: the return expression of u64_to_hex is "
@@ -727,6 +842,7 @@ def run(ctx):
     qres = check_parser(ctx, pars, HEX, mod=mod)
     for st, construct, where, why in qres:
         ctx.ob("C19.2", construct, st, where, why)
+    lossy_division(ctx, prod, HEX)
     ctx.floor("return paths of u64_to_hex", len(pres), 1, soft=True)
     ctx.floor("return paths of hex_to_u64", len(qres), 1, soft=True)
 
